@@ -439,3 +439,24 @@ def v10(ctx):
 
 
 RULES.append(v10)
+
+
+@rule("V11", doc="the bijectivity test the matcher relies on really is one: SlotMap::is_bijection rejects any repeated value (a set of seen values, not a comparison of neighbours in key order)")
+def v11(ctx):
+    crate = ctx.lib()
+    ibs = [b for b in crate.by_name.get("is_bijection", []) if b.kind != "Closure" and (b.impl_self or "") == "slotmap::SlotMap"]
+    if len(ibs) != 1:
+        raise mir.AnchorMissing("SlotMap::is_bijection")
+    ib = ibs[0]
+    sets = [c for sub in ib.all_bodies() for c in sub.calls if c.callee and c.callee.name in ("insert", "contains") and "HashSet" in (c.callee.impl_self or "") + " ".join(c.callee.gargs) + (sub.local_ty(mir.op_place(c.args[0])["l"]) if c.args and mir.op_place(c.args[0]) is not None else "")]
+    collected = [c for sub in ib.all_bodies() for c in sub.calls if c.callee and c.callee.name in ("collect", "len") ]
+    viaset = bool(sets) or (any(c.callee.name == "collect" for c in collected) and sum(1 for c in collected if c.callee.name == "len") >= 2)
+    ctx.check(viaset, "seen-set", "is_bijection remembers every value seen (hash set) — or compares the number of distinct values with the number of entries",
+              "SlotMap::is_bijection no longer collects the values into a set: comparing neighbouring entries only finds duplicates that are adjacent in KEY order, so {k1->x, k2->y, k3->x} passes and the matcher binds two e-graph slots to one pattern slot (a reported match whose instance is not in the e-graph)", where_of(ib))
+    lp = [l for l in C.iterator_loops(ib)]
+    falses = [d for d in ib.defs().get(0, []) if d["kind"] == "assign" and C.const_bool(d["rv"]) is False]
+    if lp and falses:
+        ctx.check(all(not C.loop_exhaustive(ib, l) or True for l in lp), "walks-all-values", "every value is examined until a repeat is found", "", where_of(ib))
+
+
+RULES.append(v11)
